@@ -62,6 +62,9 @@ def flags(h):
 def _crq_subscribe(has_pub):
     def run(E):
         c, h, sid, pub = mk_channel(E, 'requester', has_pub, reenter=True)
+        E.prove('init:a_new_channel_has_both_directions_open_and_no_subscribers_yet',
+                h.attrs['_sent_complete'] is False and h.attrs['_received_complete'] is False and h.attrs['remote_subscriber'] is None
+                and h.attrs['subscriber'] is None and h.attrs['_stream_finished'] is False)
         sub = SOpaque('subscriber', 'remote-subscriber')
         n = None
         if E.path.choice(2, 'initial_request_n'):
